@@ -12,11 +12,7 @@ import (
 	"errors"
 	"fmt"
 	"os"
-	"path/filepath"
 	"reflect"
-	"runtime/debug"
-	"sort"
-	"strings"
 	"testing"
 
 	enc "github.com/named-data/ndnd/std/encoding"
@@ -49,99 +45,15 @@ func inconclusive(format string, a ...any) {
 func guard(what string, f func()) (err error) {
 	defer func() {
 		if r := recover(); r != nil {
-			err = fmt.Errorf("%s panicked: %v [at %s]", what, r, panicSite())
+			err = fmt.Errorf("%s panicked: %v [at %s]", what, r, modelreg.PanicSite())
 		}
 	}()
 	f()
 	return nil
 }
 
-// panicSite names the innermost frames of the code under test on the panicking stack.
-func panicSite() string {
-	lines := strings.Split(string(debug.Stack()), "\n")
-	var out []string
-	for i := 0; i+1 < len(lines); i++ {
-		l := strings.TrimSpace(lines[i+1])
-		if strings.Contains(lines[i], "github.com/named-data/ndnd/") && strings.Contains(l, ".go:") {
-			if j := strings.LastIndex(l, "/ndnd/"); j >= 0 {
-				l = l[j+6:]
-			} else if j := strings.Index(l, "/std/"); j >= 0 {
-				l = l[j+1:]
-			}
-			if k := strings.Index(l, " +0x"); k >= 0 {
-				l = l[:k]
-			}
-			out = append(out, filepath.Base(filepath.Dir(l))+"/"+filepath.Base(l))
-			if len(out) == 3 {
-				break
-			}
-		}
-	}
-	return strings.Join(out, " < ")
-}
-
-// segment cuts b into a wire at the given offsets (sorted, deduplicated, clipped).
-func segment(b []byte, cuts []int) enc.Wire {
-	cs := append([]int{}, cuts...)
-	sort.Ints(cs)
-	w := enc.Wire{}
-	prev := 0
-	for _, c := range cs {
-		if c <= prev || c >= len(b) {
-			continue
-		}
-		w = append(w, b[prev:c])
-		prev = c
-	}
-	w = append(w, b[prev:])
-	return w
-}
-
-// headerInteriors lists offsets strictly inside TLV headers of the top level and one nested
-// level (the places where a segment boundary is most likely to confuse a reader).
-func headerInteriors(b []byte) []int {
-	var out []int
-	es, ok, _ := modelreg.Elements(b, 0, len(b))
-	if !ok {
-		return nil
-	}
-	add := func(e modelreg.Elem) {
-		for o := e.Off + 1; o < e.ValOff(); o++ {
-			out = append(out, o)
-		}
-		out = append(out, e.ValOff())
-	}
-	for _, e := range es {
-		add(e)
-		if sub, ok, _ := modelreg.Elements(b, e.ValOff(), e.End()); ok {
-			for _, s := range sub {
-				add(s)
-			}
-		}
-	}
-	return out
-}
-
-// cutsFor turns the case's abstract cut choices into offsets of b: values < 0 select a
-// header-interior offset (index -v-1 modulo their number), values >= 0 are per-mille of len(b).
-func cutsFor(b []byte, choices []int) []int {
-	if len(b) == 0 {
-		return nil
-	}
-	hi := headerInteriors(b)
-	var out []int
-	for _, c := range choices {
-		if c < 0 {
-			if len(hi) == 0 {
-				continue
-			}
-			out = append(out, hi[(-c-1)%len(hi)])
-		} else {
-			out = append(out, c%1000*len(b)/1000)
-		}
-	}
-	return out
-}
+func segment(b []byte, cuts []int) enc.Wire { return modelreg.Segment(b, cuts) }
+func cutsFor(b []byte, choices []int) []int { return modelreg.CutsFor(b, choices) }
 
 func isUnrecognized(err error, typ uint64) bool {
 	var u enc.ErrUnrecognizedField
